@@ -7,6 +7,14 @@ HOOK_COMMITS = subprocess.run(["git", "-C", "/repo", "log", "--format=%h %s", "-
 
 # id -> (technique, level text, level note, design ref)
 CLAIMED = {
+ "C08": ("property-based testing of the close handshake: generated session state (channels, consumers, racing numbered publishes and calls on other threads, stalled transport) x close direction x server follow-up; oracle = invariants over the final wire log and every caller's first error",
+         "Exploration: final frame, exactly-one close frames, close result in all follow-up variants, first error per channel, terminal message per consumer, and gap-free prefix of each channel's racing publishes.",
+         "Racing threads are scheduled by the OS (sampled). A publish cut short by the close is accepted only as the last thing on its channel.",
+         "DESIGN.md 4/C08"),
+ "C13": ("stateful property-based testing: generated histories of listener (un)registrations, publishes and server notifications driven with FIFO barriers; oracle = per-listener-instance reference model",
+         "Exploration: every listener instance must receive exactly the events sent for its channel during its lifetime, verbatim and in order; replaced listeners are disconnected; events without a listener are discarded without disturbing the connection.",
+         "A registration without a barrier is only ordered before events it causally precedes (a publish on the same channel and its confirm); before any other server event on that channel the harness inserts the barrier.",
+         "DESIGN.md 4/C13"),
  "C01": ("property-based testing with fault-scripted transport: generated multi-thread / multi-channel op programs against a generated write script (short writes, would-block with and without re-arm) on the mock transport; oracle = independent envelope parser + per-channel expected frame concatenation",
          "Exploration: the complete outbound log must be the protocol header plus whole frames, and each channel's frames must be exactly the concatenation of what its ops emit in issue order; a handshake or call that never completes under a write script is reported after confirmation by replay.",
          "The I/O-thread side of the schedule (what every write call accepts) is owned by the harness; client-thread interleavings are sampled by OS scheduling. Write scripts are cycled up to 20 times (up to 4000 steps).",
